@@ -23,7 +23,7 @@ import (
 // process (package-level state is deliberately NOT reset between sequences:
 // later sequences start from whatever state earlier ones left behind) and every
 // single result is compared with the reference decode of the profile it
-// belongs to. A call that does not return within 10 s is a hang.
+// belongs to. A call that does not return within 60 s is a hang.
 
 type iccSeqProfile struct {
 	name    string
@@ -94,7 +94,7 @@ func iccSequences(r *ev.Run, depth int, keyPrefix string, header, desc bool) {
 				trace = append(trace, "Read("+p.name+")")
 				var got *icc.Profile
 				var err error
-				ok, pn := withTimeout(10*time.Second, func() { got, err = icc.NewProfileReader(bytes.NewReader(p.data)).ReadProfile() })
+				ok, pn := withTimeout(60*time.Second, func() { got, err = icc.NewProfileReader(bytes.NewReader(p.data)).ReadProfile() })
 				if !ok || pn != nil {
 					r.Violate(keyPrefix+"/read-hang-or-panic", fmt.Sprintf("ReadProfile did not return normally (returned=%v panic=%v) in the sequence %v", ok, pn, trace), map[string]interface{}{"sequence": trace}, nil)
 					return
@@ -118,9 +118,9 @@ func iccSequences(r *ev.Run, depth int, keyPrefix string, header, desc bool) {
 				}
 				var d string
 				var err error
-				ok, pn := withTimeout(10*time.Second, func() { d, err = h.Description() })
+				ok, pn := withTimeout(60*time.Second, func() { d, err = h.Description() })
 				if !ok {
-					r.Violate(keyPrefix+"/description-hang", fmt.Sprintf("Description() did not return within 10 s in the sequence %v", trace), map[string]interface{}{"sequence": trace}, nil)
+					r.Violate(keyPrefix+"/description-hang", fmt.Sprintf("Description() did not return within 60 s in the sequence %v", trace), map[string]interface{}{"sequence": trace}, nil)
 					return
 				}
 				if pn != nil {
